@@ -446,6 +446,54 @@ def rule_scan_text(ctx: Ctx):
            node=scans[0] if scans else fn, mod=fm)
 
 
+def rule_pin_cite_extent(ctx: Ctx):
+    """R-C02-8: the pin-cite span must contain the pin-cite text, so the two come from the same match.  Wherever a case citation's metadata.pin_cite
+    is stored from group `pin_cite` of a match X, the function also stores pin_cite_span_end / pin_cite_span_start from a quantity of the same X
+    (len(X[..]), X.end(), X.span(), or a local defined from one of them).  A pin cite taken from a second search with the extent taken from
+    elsewhere (the end of the full span, say) leaves the text outside the span whenever the two disagree."""
+    repo = ctx.repo
+    n = 0
+    for q, mod, fn in repo.all_funcs():
+        if mod.name not in ("helpers", "find"):
+            continue
+        stores = [x for x in walk_local(fn) if isinstance(x, ast.Assign) and len(x.targets) == 1 and isinstance(x.targets[0], ast.Attribute)
+                  and x.targets[0].attr == "pin_cite" and norm(x.targets[0].value).endswith(".metadata")]
+        if not stores:
+            continue
+        a0 = fn.args.args[0] if fn.args.args else None
+        cls = norm(a0.annotation) if a0 is not None and a0.annotation is not None else ""
+        if not (cls in repo.classes and repo.is_subclass(cls, "CaseCitation")):
+            continue  # law / journal citations have no pin-cite span ("when a pin cite was captured for that kind of citation")
+        span_stores = [x for x in walk_local(fn) if isinstance(x, ast.Assign) and any(isinstance(t, ast.Attribute) and t.attr in ("pin_cite_span_end", "pin_cite_span_start")
+                                                                                       for t in x.targets)]
+        for st in stores:
+            mvs = set()
+            for x in ast.walk(st.value):
+                if isinstance(x, ast.Subscript) and isinstance(x.value, ast.Name) and isinstance(x.slice, ast.Constant) and x.slice.value == "pin_cite":
+                    mvs.add(x.value.id)
+                if isinstance(x, ast.Call) and isinstance(x.func, ast.Attribute) and x.func.attr == "group" and isinstance(x.func.value, ast.Name) \
+                        and x.args and isinstance(x.args[0], ast.Constant) and x.args[0].value == "pin_cite":
+                    mvs.add(x.func.value.id)
+            # through one local: pin = clean(X["pin_cite"]); c.metadata.pin_cite = pin
+            for nm in [x.id for x in ast.walk(st.value) if isinstance(x, ast.Name)]:
+                for d in stmts_local(fn.body):
+                    if isinstance(d, ast.Assign) and nm in assigned_names(d):
+                        for x in ast.walk(d.value):
+                            if isinstance(x, ast.Subscript) and isinstance(x.value, ast.Name) and isinstance(x.slice, ast.Constant) and x.slice.value == "pin_cite":
+                                mvs.add(x.value.id)
+            for X in sorted(mvs):
+                derived = {X}
+                for d in stmts_local(fn.body):
+                    if isinstance(d, ast.Assign) and any(isinstance(y, ast.Name) and y.id == X for y in ast.walk(d.value)):
+                        derived |= assigned_names(d)
+                ok = any(derived & {y.id for y in ast.walk(sp.value) if isinstance(y, ast.Name)} for sp in span_stores)
+                n += 1
+                ctx.ob("R-C02-8", f"{q}/pin_cite<-{X}", ok,
+                       f"metadata.pin_cite is taken from group `pin_cite` of `{X}`; the pin-cite span stored here must be computed from the same match "
+                       f"(span stores: {[norm(sp)[:70] for sp in span_stores]})", node=st, mod=mod)
+    ctx.ob("R-C02-8", "helpers/pin-cite-stores", n >= 2, f"{n} stores of a case citation's pin cite from a match inspected", node=None, mod=repo.mod("helpers"), nontrivial=False)
+
+
 def run(ctx: Ctx):
     ctx.level = "other"
     ctx.explanation = (
@@ -468,6 +516,7 @@ def run(ctx: Ctx):
     ctx.guard(rule_accessors, ctx)
     ctx.guard(rule_sign, ctx, data)
     ctx.guard(rule_group_anchoring, ctx, data)
+    ctx.guard(rule_pin_cite_extent, ctx)
     M = AnnotateModel(ctx)
     if M.bal_fn is not None:
         ctx.ob("R-C02-1", f"utils.{M.bal_fn.name}/rebased", M.bal_ok, f"positions of matches on text[a:b] are rebased by a: {M.bal_why}", node=M.bal_fn, mod=M.um)
